@@ -36,6 +36,7 @@ import (
 	"github.com/openkruise/rollouts/pkg/util"
 	"github.com/openkruise/rollouts/pkg/util/configuration"
 	corev1 "k8s.io/api/core/v1"
+	apierrors "k8s.io/apimachinery/pkg/api/errors"
 	metav1 "k8s.io/apimachinery/pkg/apis/meta/v1"
 	"k8s.io/apimachinery/pkg/apis/meta/v1/unstructured"
 	"k8s.io/apimachinery/pkg/runtime"
@@ -103,9 +104,24 @@ type Case struct {
 	// Delete: the USER deletes one referenced object during the history (after the AfterOp-th EnsureRoutes call;
 	// AfterOp == len(Ops) means right before Finalise). The remaining refs must still be restored exactly.
 	Delete *DeleteOp `json:"delete,omitempty"`
+	// Fault: fault-injection case (see FaultOp); Converge / Cycles / Delete are not combined with it
+	Fault *FaultOp `json:"fault,omitempty"`
 	// FixpointOnly: replay of a C15/fixpoint, istio or reference witness: Ops has one element which is iterated
 	// from the fresh store.
 	FixpointOnly bool `json:"fixpointOnly,omitempty"`
+}
+
+const (
+	faultError = "write-error"       // the K-th write of the call returns an API error (nothing stored)
+	faultCrash = "crash-after-write" // the call is abandoned after its K-th write succeeded (every later API call of that invocation fails)
+)
+
+// FaultOp disturbs ONE provider call: the last EnsureRoutes of Ops (Call "ensure") or the Finalise after Ops
+// (Call "finalise"). Afterwards the call is retried without faults.
+type FaultOp struct {
+	Call string `json:"call,omitempty"`
+	Kind string `json:"kind,omitempty"`
+	K    int    `json:"k,omitempty"`
 }
 
 type DeleteOp struct {
@@ -118,28 +134,71 @@ type DeleteOp struct {
 
 type countingClient struct {
 	client.Client
-	writes int
+	writes int // writes forwarded to the store
+	// fault plan of the current provider invocation (see FaultOp); zero = none
+	plan     FaultOp
+	attempts int  // write attempts of the invocation
+	done     int  // writes of the invocation that reached the store
+	fired    bool // the planned fault was actually injected
 }
 
-func (c *countingClient) Create(ctx context.Context, obj client.Object, opts ...client.CreateOption) error {
+var errInjected = apierrors.NewInternalError(fmt.Errorf("injected API fault"))
+
+func (c *countingClient) begin(plan FaultOp) {
+	c.plan, c.attempts, c.done, c.fired = plan, 0, 0, false
+}
+
+// end clears the plan and keeps `fired` readable until the next begin.
+func (c *countingClient) end() { c.plan = FaultOp{} }
+
+// crashed: the invocation was abandoned after its K-th successful write: nothing it does afterwards has an effect.
+func (c *countingClient) crashed() bool {
+	return c.plan.Kind == faultCrash && c.plan.K > 0 && c.done >= c.plan.K
+}
+
+func (c *countingClient) write(f func() error) error {
+	c.attempts++
+	if c.crashed() || (c.plan.Kind == faultError && c.attempts == c.plan.K) {
+		c.fired = true
+		return errInjected
+	}
 	c.writes++
-	return c.Client.Create(ctx, obj, opts...)
+	err := f()
+	if err == nil {
+		c.done++
+		if c.crashed() {
+			c.fired = true
+		}
+	}
+	return err
+}
+
+func (c *countingClient) Get(ctx context.Context, key client.ObjectKey, obj client.Object, opts ...client.GetOption) error {
+	if c.crashed() {
+		return errInjected
+	}
+	return c.Client.Get(ctx, key, obj, opts...)
+}
+func (c *countingClient) List(ctx context.Context, list client.ObjectList, opts ...client.ListOption) error {
+	if c.crashed() {
+		return errInjected
+	}
+	return c.Client.List(ctx, list, opts...)
+}
+func (c *countingClient) Create(ctx context.Context, obj client.Object, opts ...client.CreateOption) error {
+	return c.write(func() error { return c.Client.Create(ctx, obj, opts...) })
 }
 func (c *countingClient) Update(ctx context.Context, obj client.Object, opts ...client.UpdateOption) error {
-	c.writes++
-	return c.Client.Update(ctx, obj, opts...)
+	return c.write(func() error { return c.Client.Update(ctx, obj, opts...) })
 }
 func (c *countingClient) Patch(ctx context.Context, obj client.Object, patch client.Patch, opts ...client.PatchOption) error {
-	c.writes++
-	return c.Client.Patch(ctx, obj, patch, opts...)
+	return c.write(func() error { return c.Client.Patch(ctx, obj, patch, opts...) })
 }
 func (c *countingClient) Delete(ctx context.Context, obj client.Object, opts ...client.DeleteOption) error {
-	c.writes++
-	return c.Client.Delete(ctx, obj, opts...)
+	return c.write(func() error { return c.Client.Delete(ctx, obj, opts...) })
 }
 func (c *countingClient) DeleteAllOf(ctx context.Context, obj client.Object, opts ...client.DeleteAllOfOption) error {
-	c.writes++
-	return c.Client.DeleteAllOf(ctx, obj, opts...)
+	return c.write(func() error { return c.Client.DeleteAllOf(ctx, obj, opts...) })
 }
 
 type env struct {
@@ -197,7 +256,11 @@ func (r callRes) String() string {
 	return fmt.Sprintf("%v writes=%d", r.Done, r.Writes)
 }
 
-func (e *env) ensure(s *v1beta1.TrafficRoutingStrategy) (res callRes) {
+func (e *env) ensure(s *v1beta1.TrafficRoutingStrategy) callRes { return e.ensureF(s, FaultOp{}) }
+
+func (e *env) ensureF(s *v1beta1.TrafficRoutingStrategy, plan FaultOp) (res callRes) {
+	e.cli.begin(plan)
+	defer e.cli.end()
 	before := e.cli.writes
 	res.Panic = lib.Catch(func() {
 		done, err := e.ctrl.EnsureRoutes(context.TODO(), s.DeepCopy())
@@ -211,7 +274,11 @@ func (e *env) ensure(s *v1beta1.TrafficRoutingStrategy) (res callRes) {
 	return
 }
 
-func (e *env) finalise() (res callRes) {
+func (e *env) finalise() callRes { return e.finaliseF(FaultOp{}) }
+
+func (e *env) finaliseF(plan FaultOp) (res callRes) {
+	e.cli.begin(plan)
+	defer e.cli.end()
 	before := e.cli.writes
 	res.Panic = lib.Catch(func() {
 		done, err := e.ctrl.Finalise(context.TODO())
@@ -1089,6 +1156,247 @@ func (rn *runner) runCycle(e *env, c *Case, ops []v1beta1.TrafficRoutingStrategy
 }
 
 // ---------------------------------------------------------------------------------------------------
+// fault enumeration (interrupted calls are retried; the outcome must be the undisturbed one)
+
+// restoreDiff compares a finalised object with what the user had: "" = exact.
+func restoreDiff(o, a view) (what, detail string) {
+	switch {
+	case o.Exists != a.Exists:
+		return "existence", fmt.Sprintf("existed=%v before, exists=%v now", o.Exists, a.Exists)
+	case !o.Exists:
+		return "", ""
+	}
+	if _, left := a.Annotations[snapshotAn]; left {
+		return "not-restored", fmt.Sprintf("annotation %s is still present, spec=%s (original %s)", snapshotAn, a.Spec, o.Spec)
+	}
+	if o.Spec != a.Spec {
+		return "inexact", fmt.Sprintf("spec %s, original %s", a.Spec, o.Spec)
+	}
+	if !sameStrMap(o.Labels, a.Labels) {
+		return "inexact", fmt.Sprintf("labels %s, original %s", lib.J(a.Labels), lib.J(o.Labels))
+	}
+	if !sameStrMap(o.Annotations, a.Annotations) {
+		return "inexact", fmt.Sprintf("annotations %s, original %s", lib.J(a.Annotations), lib.J(o.Annotations))
+	}
+	return "", ""
+}
+
+// runFaultCase executes ONE fault case: ops[:n-1] undisturbed, then either the last EnsureRoutes or the Finalise after
+// it disturbed by `f`, then retries without faults. Returns whether the fault was actually injected.
+func (rn *runner) runFaultCase(ops []v1beta1.TrafficRoutingStrategy, f FaultOp) (fired bool) {
+	if len(ops) == 0 {
+		return false
+	}
+	c := rn.mkCase(ops, false, false)
+	c.Fault = &f
+	e, err := newEnv(rn.w)
+	if err != nil {
+		panic(err)
+	}
+	rn.trace("fault case %s: %s of the %s call, history %s", f.Kind, fmt.Sprintf("k=%d", f.K), f.Call, opsName(ops))
+	s := &ops[len(ops)-1]
+	rr := rn.ref(s)
+	if rr.Res.Timeout || rr.Res.Panic != nil {
+		return false
+	}
+	plain := func(k int, st *v1beta1.TrafficRoutingStrategy) bool {
+		res := e.ensure(st)
+		rn.calls++
+		rn.trace("  step %d EnsureRoutes(%s) -> %s", k+1, opName(st), res)
+		if rn.panicked("EnsureRoutes", res, c) {
+			return false
+		}
+		if res.Timeout {
+			rn.timedOut = true
+			return false
+		}
+		return true
+	}
+	for k := 0; k < len(ops)-1; k++ {
+		if !plain(k, &ops[k]) {
+			return false
+		}
+	}
+	switch f.Call {
+	case "ensure":
+		res := e.ensureF(s, f)
+		rn.calls++
+		fired = e.cli.fired
+		rn.trace("  step %d EnsureRoutes(%s) DISTURBED (%s k=%d, injected=%v) -> %s", len(ops), opName(s), f.Kind, f.K, fired, res)
+		rn.traceViews(e.views())
+		if rn.panicked("EnsureRoutes", res, c) {
+			return
+		}
+		if res.Timeout {
+			rn.timedOut = true
+			return
+		}
+		if !fired {
+			rn.r.Outcome("fault/ensure/not-reached")
+			return
+		}
+		if rr.Res.Err != "" {
+			rn.r.Outcome("fault/ensure/undisturbed-call-fails-anyway")
+			return
+		}
+		rn.r.Outcome(fmt.Sprintf("fault/ensure/%s/disturbed-call-reports-error=%v", f.Kind, res.Err != ""))
+		// retry until done
+		var last callRes
+		n := 0
+		for n < maxEnsure+1 {
+			last = e.ensure(s)
+			rn.calls++
+			n++
+			rn.trace("  retry %d EnsureRoutes(%s) -> %s", n, opName(s), last)
+			if rn.panicked("EnsureRoutes", last, c) {
+				return
+			}
+			if last.Timeout {
+				rn.timedOut = true
+				return
+			}
+			if last.Err != "" || last.Done {
+				break
+			}
+		}
+		now := e.views()
+		rn.traceViews(now)
+		switch {
+		case last.Err != "":
+			rn.violate("C15/fault/ensure-not-resumed/error-persists", fmt.Sprintf("EnsureRoutes(%s) disturbed by %s at write %d; retry %d without faults fails: %s", opName(s), f.Kind, f.K, n, last.Err), c)
+			return
+		case !last.Done:
+			rn.violate("C15/fault/ensure-not-resumed/no-convergence", fmt.Sprintf("EnsureRoutes(%s) disturbed by %s at write %d; %d retries without faults never reported done", opName(s), f.Kind, f.K, n), c)
+			return
+		}
+		rn.r.Outcome(fmt.Sprintf("fault/ensure/retries-to-done=%d", n))
+		for i := range rn.w.Refs {
+			a, b := now[i], rr.Views[i]
+			if a.Exists != b.Exists || (a.Exists && (a.Spec != b.Spec || !sameStrMap(a.Labels, b.Labels) || !sameStrMap(a.Annotations, b.Annotations))) {
+				rn.violate("C15/fault/ensure-not-resumed/differs-from-undisturbed",
+					fmt.Sprintf("EnsureRoutes(%s) disturbed by %s at write %d and retried until done: %s %s differs from the undisturbed result\n after retries: spec=%s labels=%s annotations=%s\n undisturbed:   spec=%s labels=%s annotations=%s",
+						opName(s), f.Kind, f.K, rn.w.Refs[i].Kind, rn.w.Refs[i].Name, a.Spec, lib.J(a.Labels), lib.J(a.Annotations), b.Spec, lib.J(b.Labels), lib.J(b.Annotations)), c)
+				return
+			}
+		}
+		// and the interrupted step can still be undone exactly
+		for try := 0; try < 2; try++ {
+			fr := e.finalise()
+			rn.calls++
+			rn.trace("  Finalise -> %s", fr)
+			if rn.panicked("Finalise", fr, c) {
+				return
+			}
+		}
+		fin := e.views()
+		rn.traceViews(fin)
+		for i := range rn.w.Refs {
+			if what, d := restoreDiff(rn.orig[i], fin[i]); what != "" {
+				rn.violate("C15/fault/ensure-not-resumed/restore-"+what, fmt.Sprintf("EnsureRoutes(%s) disturbed by %s at write %d, retried, then Finalise: %s %s: %s", opName(s), f.Kind, f.K, rn.w.Refs[i].Kind, rn.w.Refs[i].Name, d), c)
+				return
+			}
+		}
+	case "finalise":
+		if !plain(len(ops)-1, s) {
+			return
+		}
+		res := e.finaliseF(f)
+		rn.calls++
+		fired = e.cli.fired
+		rn.trace("  Finalise DISTURBED (%s k=%d, injected=%v) -> %s", f.Kind, f.K, fired, res)
+		rn.traceViews(e.views())
+		if rn.panicked("Finalise", res, c) {
+			return
+		}
+		if !fired {
+			rn.r.Outcome("fault/finalise/not-reached")
+			return
+		}
+		rn.r.Outcome(fmt.Sprintf("fault/finalise/%s/disturbed-call-reports-error=%v", f.Kind, res.Err != ""))
+		var last callRes
+		n := 0
+		for n < 3 {
+			last = e.finalise()
+			rn.calls++
+			n++
+			rn.trace("  retry %d Finalise -> %s", n, last)
+			if rn.panicked("Finalise", last, c) {
+				return
+			}
+			if last.Err == "" && !last.Done {
+				break // reports: nothing left to do
+			}
+		}
+		fin := e.views()
+		rn.traceViews(fin)
+		if last.Err != "" {
+			rn.violate("C15/fault/finalise-not-resumed/error-persists", fmt.Sprintf("Finalise after %s disturbed by %s at write %d; retry %d without faults fails: %s", opsName(ops), f.Kind, f.K, n, last.Err), c)
+			return
+		}
+		rn.r.Outcome(fmt.Sprintf("fault/finalise/retries-to-quiescence=%d", n))
+		for i := range rn.w.Refs {
+			if what, d := restoreDiff(rn.orig[i], fin[i]); what != "" {
+				rn.violate("C15/fault/finalise-not-resumed/"+what,
+					fmt.Sprintf("Finalise after %s disturbed by %s at write %d, then retried %d times without faults (last retry: %s): %s %s: %s", opsName(ops), f.Kind, f.K, n, last, rn.w.Refs[i].Kind, rn.w.Refs[i].Name, d), c)
+				return
+			}
+		}
+		before := e.dump()
+		extra := e.finalise()
+		rn.calls++
+		rn.trace("  further Finalise -> %s", extra)
+		if rn.panicked("Finalise", extra, c) {
+			return
+		}
+		if extra.Err != "" || extra.Done || extra.Writes != 0 || before != e.dump() {
+			rn.violate("C15/fault/finalise-not-resumed/not-quiescent", fmt.Sprintf("Finalise after %s disturbed by %s at write %d and retried; a further Finalise returned %s (expected false, no write)", opsName(ops), f.Kind, f.K, extra), c)
+		}
+	}
+	return
+}
+
+// faultEnum enumerates EVERY fault point of the last EnsureRoutes of ops and of the Finalise after ops: the number of
+// writes of each call is learned from an undisturbed run. Returns (cases executed, cases in which a fault was injected).
+func (rn *runner) faultEnum(ops []v1beta1.TrafficRoutingStrategy, onCase func(f FaultOp, fired bool)) {
+	e, err := newEnv(rn.w)
+	if err != nil {
+		panic(err)
+	}
+	var r0 callRes
+	for k := range ops {
+		r0 = e.ensure(&ops[k])
+		rn.calls++
+		if r0.Timeout {
+			rn.timedOut = true
+			return
+		}
+		if r0.Panic != nil {
+			return // reported by the history runs
+		}
+	}
+	f0 := e.finalise()
+	rn.calls++
+	if f0.Panic != nil {
+		return
+	}
+	for _, call := range []struct {
+		name   string
+		writes int
+	}{{"ensure", r0.Writes}, {"finalise", f0.Writes}} {
+		for _, kind := range []string{faultError, faultCrash} {
+			for k := 1; k <= call.writes; k++ {
+				f := FaultOp{Call: call.name, Kind: kind, K: k}
+				fired := rn.runFaultCase(ops, f)
+				if rn.timedOut {
+					return
+				}
+				onCase(f, fired)
+			}
+		}
+	}
+}
+
+// ---------------------------------------------------------------------------------------------------
 // alphabets
 
 func mustJSON(s string) interface{} {
@@ -1558,7 +1866,9 @@ func Run(r *lib.Report) {
 		"for sequences of length 1..2 the same again with the last strategy iterated to its fixed point before Finalise, " +
 		"for sequences of length 1 the same again as two consecutive cycles (history, Finalise, history, Finalise) on one store, " +
 		"and in multi-ref worlds, for sequences of length 1..2 and every existing ref, the same with that ref DELETED BY THE USER before Finalise (thorough: also between the two steps). " +
-		"evaluation = one (world, sequence, variant); non-trivial = the provider wrote to the store during the history; distinct = distinct (world, sequence, variant)"
+		"In multi-ref worlds additionally FAULT ENUMERATION: for every strategy of the sequence alphabet (thorough: also after every one-step prefix) the number of writes W of the EnsureRoutes call and of the following Finalise is learned from an undisturbed run, " +
+		"then for every k in 1..W and both fault kinds (k-th write returns an API error / call abandoned after the k-th write) the call is disturbed and retried without faults. " +
+		"evaluation = one (world, sequence, variant) or one (world, history, fault point); non-trivial = the provider wrote to the store during the history; distinct = distinct (world, sequence, variant)"
 	r.Assumptions = []string{
 		"labels/annotations: an empty map and an absent map are the same configuration (API server semantics) and compare equal",
 		"a top-level `spec: null` and an absent spec compare equal (the API server prunes null for non-nullable fields); inside the spec the restore oracle is exact (canonical JSON, int64 preserved)",
@@ -1567,6 +1877,7 @@ func Run(r *lib.Report) {
 		"Istio split oracle is judged on rules WITHOUT their own `match` whose only destination is the stable Service, for steps with traffic and without matches (API: matches take precedence); rules with their own match are left alone by the script's documented design and are only observed",
 		"Istio 'other host' = no destination of the rule denotes the stable Service of the rollout namespace (short name, name.ns, name.ns.svc[.cluster.local]); 'untouched' is compared modulo {} == [] == null == absent because the Lua bridge cannot represent empty collections",
 		"the same object is never referenced twice in one ref list",
+		"fault model: an injected write error stores nothing; 'crash after write k' = every API call of that invocation after the k-th successful write fails (no further effect on the store); retries are fault-free; EnsureRoutes is retried until it reports done (at most 4 calls), Finalise until it reports nothing-to-do (at most 3 calls); expected result = the undisturbed one (objects after one undisturbed EnsureRoutes / the user's objects)",
 		"a ref deleted by the user during the history is not judged itself; after the deletion EnsureRoutes calls are only observed (the untouched-store reference no longer applies); every remaining ref must be restored exactly by Finalise (signatures end in /other-ref-deleted)",
 		"fake client = controller-runtime v0.14.6 fake with unstructured objects (no admission, no pruning)",
 		"the Lua VM's 1 s deadline is real time; no script of this domain loops, so a `context deadline exceeded` is machine overload: the case is re-executed (4 tries) and otherwise reported as not judged (exhaustive=false), never as a verdict",
@@ -1599,7 +1910,7 @@ func Run(r *lib.Report) {
 	r.Extra["sequences_per_generic_world"] = len(seqG)
 	r.Extra["max_history_length"] = maxLen
 
-	var calls, evals, skipped, starved int64
+	var calls, evals, skipped, starved, faultCases int64
 	runners := make([]*runner, len(jobs))
 	type variant struct {
 		conv   bool
@@ -1688,6 +1999,40 @@ func Run(r *lib.Report) {
 				}
 			}
 		}
+		// fault enumeration in multi-ref worlds: every write of the (last) EnsureRoutes and of the Finalise after it
+		// fails / is the last one before a crash; then the call is retried without faults
+		if len(w.Refs) > 1 {
+			nSeq := nGeneric
+			if strings.HasPrefix(w.ID, "istio/") {
+				nSeq = nIstio
+			}
+			for i := 0; i < nSeq; i++ {
+				histories := [][]v1beta1.TrafficRoutingStrategy{{all[i]}}
+				if th {
+					for p := 0; p < nSeq; p++ {
+						histories = append(histories, []v1beta1.TrafficRoutingStrategy{all[p], all[i]})
+					}
+				}
+				for _, ops := range histories {
+					var cnt int64
+					attempt(func() {
+						cnt = 0
+						if p := lib.Catch(func() {
+							rn.faultEnum(ops, func(f FaultOp, fired bool) {
+								cnt++
+								if fired {
+									r.Nontrivial(fmt.Sprintf("%s|%s|fault|%s", w.ID, opsName(ops), lib.J(f)))
+								}
+							})
+						}); p != nil {
+							r.Violate("C15/harness/panic-in-check", p.Value+"\n"+firstStack(p.Stack), rn.mkCase(ops, false, false))
+						}
+					})
+					n += cnt
+					atomic.AddInt64(&faultCases, cnt)
+				}
+			}
+		}
 		r.AddEval(n)
 		atomic.AddInt64(&evals, n)
 		atomic.AddInt64(&calls, rn.calls)
@@ -1704,6 +2049,7 @@ func Run(r *lib.Report) {
 	}
 	r.Extra["provider_calls"] = calls
 	r.Extra["worlds_skipped_by_deadline"] = skipped
+	r.Extra["fault_cases"] = faultCases
 	r.Extra["cases_not_judged_lua_deadline_under_load"] = starved
 	if evals == 0 {
 		r.Warn("no case executed")
@@ -1756,7 +2102,11 @@ func Replay(r *lib.Report, raw json.RawMessage) {
 	}
 	fmt.Println("original objects:")
 	rn.traceViews(rn.orig)
-	if c.FixpointOnly {
+	if c.Fault != nil {
+		if p := lib.Catch(func() { rn.runFaultCase(c.Ops, *c.Fault) }); p != nil {
+			fmt.Println("check panicked:", p.Value)
+		}
+	} else if c.FixpointOnly {
 		for i := range c.Ops {
 			rn.ref(&c.Ops[i])
 		}
